@@ -61,16 +61,19 @@ class AccountFutures:
         """qty signed (buy > 0). Returns the effect name."""
         self.resting.pop(key, None)
         q, p = D(qty), F(price)
+        cur = self.qty[symbol]
+        oversize = reduce_only and cur != 0 and (cur > 0) != (q > 0) and abs(q) > abs(cur)
+        if oversize:
+            q = -cur          # a reduce-only order larger than the position is filled for the size of the position only
         self.wallet -= abs(F(q)) * p * self.fee
         self.price[symbol] = price
-        cur = self.qty[symbol]
         if cur == 0:
             self.qty[symbol], self.entry[symbol] = q, p
             eff = 'open'
         elif cur + q == 0:
             self.wallet += (p - self.entry[symbol]) * F(cur)
             self.qty[symbol], self.entry[symbol] = Decimal(0), None
-            eff = 'close'
+            eff = 'oversize_close' if oversize else 'close'
         elif (cur > 0) == (q > 0):
             if reduce_only:
                 eff = 'ignored_reduce_only_increase'
